@@ -62,7 +62,7 @@ func init() {
 		// and compression only replaces the payload when strictly shorter
 		rs := c.MustFunc("Memberlist.rawSendMsgPacket")
 		okComp := false
-		ast.Inspect(rs.Decl.Body, func(n ast.Node) bool {
+		inspectFn(rs, func(n ast.Node) bool {
 			if ifs, ok := n.(*ast.IfStmt); ok {
 				cs := norm(p.Canon(ifs.Cond))
 				if cs == "(buf.Len()<len(msg))" || cs == "(len(msg)>buf.Len())" {
@@ -130,7 +130,7 @@ func crcHeaderSize(c *Ctx) int64 {
 	p := c.P
 	fn := c.MustFunc("Memberlist.rawSendMsgPacket")
 	var size int64
-	ast.Inspect(fn.Decl.Body, func(n ast.Node) bool {
+	inspectFn(fn, func(n ast.Node) bool {
 		as, ok := n.(*ast.AssignStmt)
 		if !ok || len(as.Rhs) != 1 {
 			return true
@@ -162,7 +162,7 @@ func budgetOf(c *Ctx, fn *core.Func) (map[string]int64, int64, budgetCond, bool)
 	cond := budgetCond{}
 	var bobj types.Object
 	name := func(e ast.Expr) string { return norm(rename(p, fn, p.Canon(e))) }
-	ast.Inspect(fn.Decl.Body, func(n ast.Node) bool {
+	inspectFn(fn, func(n ast.Node) bool {
 		switch v := n.(type) {
 		case *ast.AssignStmt:
 			if len(v.Lhs) == 1 && len(v.Rhs) == 1 {
@@ -209,7 +209,7 @@ func checkNarrowing(c *Ctx) {
 	b := &boundsAnalysis{c: c, p: p, terms: map[string]termInfo{}, pre: map[*core.Func][]precond{}}
 	n := 0
 	for _, fn := range p.SortedFuncs() {
-		ast.Inspect(fn.Decl.Body, func(nd ast.Node) bool {
+		inspectFn(fn, func(nd ast.Node) bool {
 			call, ok := nd.(*ast.CallExpr)
 			if !ok || !p.IsConversion(call) || len(call.Args) != 1 {
 				return true
@@ -293,7 +293,7 @@ func checkFramingAgreement(c *Ctx) {
 	rule := "compound framing: encoder and decoder agree - one count byte, big-endian 16-bit length per part, lengths before payloads"
 	c.Rule(rule)
 	encBE, encU16, decBE16, decCount, decStride := false, false, false, false, false
-	ast.Inspect(enc.Decl.Body, func(n ast.Node) bool {
+	inspectFn(enc, func(n ast.Node) bool {
 		if call, ok := n.(*ast.CallExpr); ok {
 			if f := p.Callee(call); f != nil && core.FuncFullName(f) == "encoding/binary.Write" && len(call.Args) == 3 {
 				encBE = p.Canon(call.Args[1]) == "binary.BigEndian"
@@ -304,7 +304,7 @@ func checkFramingAgreement(c *Ctx) {
 		}
 		return true
 	})
-	ast.Inspect(dec.Decl.Body, func(n ast.Node) bool {
+	inspectFn(dec, func(n ast.Node) bool {
 		switch v := n.(type) {
 		case *ast.CallExpr:
 			if f := p.Callee(v); f != nil && core.FuncFullName(f) == "encoding/binary.bigEndian.Uint16" || (f != nil && f.Name() == "Uint16" && strings.Contains(p.Canon(v.Fun), "binary.BigEndian")) {
@@ -341,7 +341,7 @@ func checkAccounting(c *Ctx) {
 	n := 0
 	for _, name := range []string{"Memberlist.getBroadcasts", "TransmitLimitedQueue.GetBroadcasts"} {
 		fn := c.MustFunc(name)
-		ast.Inspect(fn.Decl.Body, func(nd ast.Node) bool {
+		inspectFn(fn, func(nd ast.Node) bool {
 			as, ok := nd.(*ast.AssignStmt)
 			if !ok || as.Tok != token.ADD_ASSIGN || len(as.Lhs) != 1 {
 				return true
@@ -361,7 +361,7 @@ func checkAccounting(c *Ctx) {
 	// the delegate is offered what is left, with the user-message framing byte added to the overhead
 	gb := c.MustFunc("Memberlist.getBroadcasts")
 	okAvail, okDel, okFrame := false, false, false
-	ast.Inspect(gb.Decl.Body, func(nd ast.Node) bool {
+	inspectFn(gb, func(nd ast.Node) bool {
 		switch v := nd.(type) {
 		case *ast.AssignStmt:
 			if len(v.Rhs) == 1 && norm(p.Canon(v.Rhs[0])) == "(limit-bytesUsed)" {
